@@ -52,9 +52,25 @@ pub fn run(ctx: &mut Ctx, _replay: Option<&str>) {
                 continue;
             }
         };
-        let expect = if exp_ok && nbf_ok { Expect::Accept } else { Expect::Reject };
+        // The rule speaks about the nbf of the issuer-signed JWT.  A strategy may make nbf itself selectively
+        // disclosable (C05 keeps only iss/iat/exp always visible); the signed payload then carries no nbf, no verifier
+        // can see a withheld one, and nothing is asserted about it (DESIGN.md §7, observation f).
+        let nbf_signed = h.issued.payload().map(|p| p.get("nbf").is_some()).unwrap_or(false);
+        let nbf_hidden_future = !nbf_ok && !nbf_signed;
+        if nbf_hidden_future {
+            ctx.count("nbf.future-but-hidden-by-strategy(not asserted)");
+        }
+        let expect = if !exp_ok {
+            Expect::Reject
+        } else if nbf_ok {
+            Expect::Accept
+        } else if nbf_hidden_future {
+            Expect::Free
+        } else {
+            Expect::Reject
+        };
         attacks.push(Attack {
-            name: format!("exp-{}/nbf-{}", exp_class, nbf_class),
+            name: format!("exp-{}/nbf-{}{}", exp_class, nbf_class, if nbf_hidden_future { "-hidden" } else { "" }),
             args: f.verify_args(&h.pres_text),
             expect,
             origin: json!({"flow": f.json()}),
